@@ -309,7 +309,7 @@ func main() {
 		"every request Zeno sends for crawled content is the one preprocess() attaches: archiver.archive sends item.GetURL().GetRequest() unchanged and the WARC client does not follow redirects itself (FollowRedirects unset); read in the code, not executed here (the `world` end-to-end engine of DESIGN.md does not exist in /verif/engine)",
 		"'matches' is substring for host/string filters and RE2 search for exclusion-file lines, as the flags are documented; host comparison case-insensitive",
 		"literal reading: only the exact host names localhost / 127.0.0.1 / dot-less are forbidden, and only the literal text of the request URL is compared with exclude-string",
-		"filter values themselves are fixed ASCII lower-case strings (out.example, secret, ^https?://[^/]+/a/, in.example, /a/); every on/off combination is run",
+		"filter values themselves are fixed ASCII lower-case strings (out.example, in.example:8080 - an entry with a port matches host:port -, secret, ^https?://[^/]+/a/, in.example, /a/); every on/off combination is run",
 		"the local seen-store is emptied of the case's URLs after every case so that cases are independent",
 	}, hkit.Violations())
 	fmt.Printf("C05 %s: %d evaluations (%d units), %d requests judged, %d distinct (position, filters, request URL), %d failing signatures, %d panics\n",
